@@ -14,7 +14,8 @@ LEVEL_TEXT = ("On the attribute-store model (objects with their own __dict__, li
 LEVEL_NOTE = ("After the fix: commit for D7. Instance-data names only: names that resolve on the class (separator, properties, "
               "methods) are the link's own by Python's lookup order. Cyclic target chains are outside the model (fuel). Trusted: Lean "
               "kernel, standard axioms; the mirror lean/Anytree/Model/Attr.lean; the extractor for the name lists."
-              " Class-level attributes of user subclasses of the link class (ordinary lookup answers before anything is forwarded) are outside the attribute-store model: reads of such a name are decided by a driver-level walk (Drv.getClassAware), compared with /repo, not proved.")
+              " Class-level attributes of user subclasses of the link class (ordinary lookup answers before anything is forwarded) are outside the attribute-store model: reads of such a name are decided by the class-aware read of Model/AttrClass.lean, a conservative extension of the store (C20b: equal to getattr without user-class links; a user-class link answers, a plain link forwards), compared with /repo.")
+MODULES = ['Anytree.Props.C20', 'Anytree.Props.C20b']
 THEOREMS = [
     ("Anytree.Props.C20.link_read_step", "full"),
     ("Anytree.Props.C20.link_write_step", "full"),
@@ -28,6 +29,11 @@ THEOREMS = [
     ("Anytree.Props.C20.bookkeeping_names_agree", "full"),
     ("Anytree.Props.C20.structure_independent", "full"),
     ("Anytree.Props.C20.D7_witness", "witness"),
+    ("Anytree.Props.C20b.getClassAware_user", "full"),
+    ("Anytree.Props.C20b.getClassAware_forward", "full"),
+    ("Anytree.Props.C20b.getClassAware_node", "full"),
+    ("Anytree.Props.C20b.getClassAware_eq_getattr", "full"),
+    ("Anytree.Props.C20b.getClassAware_fuel_mono", "full"),
 ]
 NOT_COVERED = []
 PREDICATE_SPEC = True
